@@ -875,7 +875,10 @@ class BaseConnector:
         should_close: bool = False,
     ) -> None:
         if self._closed:
-            # acquired connection is already released on connector closing
+            # acquired connection is already released on connector closing,
+            # but a connection the connector does not track (CONNECT tunnel)
+            # was not closed by it and cannot be pooled any more.
+            protocol.close()
             return
 
         self._release_acquired(key, protocol)
